@@ -564,9 +564,10 @@ example (s : State) (a : Nat) : step s (.look 0 a) = none := by simp [step]
     `ECALFunction.Run`). The second disjunct is the ONE recorded hit on the tree as it was when
     this was written — the debugger's `inject` evaluates as "thread 999", so two concurrent
     injections (or an injection and the pool's 999th id) re-enter each other's blocks: a genuine
-    violation of C12, reproduced by harness mode J (occupancy 5 in one block), repaired by
-    fixes/C12-inject-own-thread-id.patch. With the repair the list is empty and mode J runs. -/
-theorem no_literal_thread_id :
+    violation of C12, shown by harness mode J (occupancy 5 in one block) and recorded as known
+    finding `inject-shares-thread-999` until the repair (a fresh id per injection, owned by
+    property C16) is in the tree; then the list is empty and the disjunct is dropped. -/
+theorem no_literal_tid :
     Ecal.Gen.C12.literalTids = [] ∨
     Ecal.Gen.C12.literalTids = ["interpreter/ecalDebugger.InjectValue:999"] := by decide
 
